@@ -92,6 +92,11 @@ class SchedTransport:
             loop.call_later(sc[1], self._deliver, g, final)
         elif k == "error":
             loop.call_later(0.01, self._deliver, g, ConnectionResetError("script"))
+        elif k == "pending-error":
+            # ResponsePending replies, then the connection is lost before the final reply
+            for i in range(sc[1]):
+                loop.call_later(0.05 + 0.3 * i, self._deliver, g, pend)
+            loop.call_later(0.05 + 0.3 * sc[1], self._deliver, g, ConnectionResetError("script"))
         elif k == "none":
             pass
         else:
@@ -135,6 +140,7 @@ script_s = st.one_of(
     st.just(["none"]),
     st.tuples(st.just("late"), st.sampled_from([1.2, 1.7, 2.4])).map(list),
     st.just(["error"]),
+    st.tuples(st.just("pending-error"), st.integers(1, 2)).map(list),
 )
 
 
@@ -145,9 +151,9 @@ def case_s(draw) -> dict[str, Any]:
     for i in range(n):
         # a caller is a piece of scanner code: one read, or a short program of reads and session changes through the ECU-level
         # helpers (set_session runs its hooks and the session change; any of them may fail)
-        ops = draw(st.one_of(st.just(["read"]), st.just(["read"]), st.lists(st.sampled_from(["read", "session", "session"]), min_size=1, max_size=3)))
+        ops = draw(st.one_of(st.just(["read"]), st.just(["read"]), st.just(["read-raw"]), st.lists(st.sampled_from(["read", "read-raw", "session", "session"]), min_size=1, max_size=3)))
         callers.append({"did": 0x1000 + i, "start": draw(st.sampled_from([0, 0, 0.05, 0.1, 0.2, 0.35, 0.5, 0.7, 1.0, 1.3, 2.0])),
-                        "max_retry": draw(st.integers(0, 1)), "scripts": draw(st.lists(script_s, min_size=1, max_size=2 if ops == ["read"] else 4)), "ops": ops})
+                        "max_retry": draw(st.integers(0, 1)), "scripts": draw(st.lists(script_s, min_size=1, max_size=2 if len(ops) == 1 else 4)), "ops": ops})
     return {"callers": callers,
             "tp_interval": draw(st.one_of(st.none(), st.sampled_from([0.1, 0.25, 0.4, 0.9]))),
             "tp_script": draw(st.sampled_from([["imm"], ["imm"], ["delay", 0.3], ["none"], ["pending", 1, 0.1]])),
@@ -200,11 +206,14 @@ def run_case(case: dict[str, Any]) -> dict[str, Any]:
                         if op == "read":
                             r = await ecu.request(service.ReadDataByIdentifierRequest(c["did"]), cfg)
                             w[5] = ("ok", r.pdu)
+                        elif op == "read-raw":  # the same read through send_raw()
+                            r = await ecu.send_raw(b"\x22" + c["did"].to_bytes(2, "big"), cfg)
+                            w[5] = ("ok", r.pdu)
                         else:
                             r = await ecu.set_session(0x40 + idx, config=cfg)
                             w[5] = ("ok", r.pdu)
                         if j == 0 or results.get(name, ("ok",))[0] == "ok":
-                            results[name] = w[5] if op == "read" else results.get(name, ("ok", None))
+                            results[name] = w[5] if op in ("read", "read-raw") else results.get(name, ("ok", None))
                     except asyncio.CancelledError:
                         w[5] = ("cancelled", None)
                         results[name] = ("cancelled", None)
@@ -331,7 +340,7 @@ def check(case: dict[str, Any]) -> list[tuple[str, str]]:
     for name, j, op, _t0, _t1, res, _i0, _i1 in ops:
         if res and res[0] == "ok" and res[1] is not None:
             i = int(name[1:])
-            want = (b"\x62" + case["callers"][i]["did"].to_bytes(2, "big")) if op == "read" else bytes([0x50, 0x40 + i])
+            want = (b"\x62" + case["callers"][i]["did"].to_bytes(2, "big")) if op in ("read", "read-raw") else bytes([0x50, 0x40 + i])
             if res[1][: len(want)] != want:
                 out.append(("C05/foreign-reply-returned", f"{name} ({op} #{j}, expects {want.hex()}..) got {res[1].hex()}"))
                 break
